@@ -98,7 +98,10 @@ def dst_probe():
     real = time.time
     # instants (UTC): the day before the EU spring change 2024, before the US autumn change 2024, in the repeated hour
     nows = [calendar.timegm((2024, 3, 30, 12, 0, 0)), calendar.timegm((2024, 11, 2, 18, 0, 0)), calendar.timegm((2024, 10, 27, 0, 30, 0)),
-            calendar.timegm((2024, 7, 1, 12, 0, 0))]
+            calendar.timegm((2024, 7, 1, 12, 0, 0)),
+            # days whose ISO week belongs to the neighbouring year
+            calendar.timegm((2026, 12, 31, 12, 0, 0)), calendar.timegm((2027, 1, 2, 12, 0, 0)), calendar.timegm((2029, 12, 30, 12, 0, 0)),
+            calendar.timegm((2030, 12, 29, 23, 30, 0))]
     try:
         for now in nows:
             time.time = lambda _n=now: float(_n)
